@@ -72,7 +72,9 @@ func wrapLayer[A p2p.Addr, Pub any](x p2p.SecureSwarm[A, Pub], l layerSpec, clos
 	case "frag":
 		y = fragswarm.NewSecure[A, Pub](x, int(l.Arg))
 	case "mbapp":
-		y = mbapp.New[A, Pub](x, int(l.Arg), mbapp.WithNumWorkers(1))
+		mb := mbapp.New[A, Pub](x, int(l.Arg), mbapp.WithNumWorkers(1))
+		mb.VerifHoldPartials()
+		y = mb
 	case "wl":
 		y = wlswarm.WrapSecure[A, Pub](x, func(A) bool { return true })
 	default:
